@@ -116,8 +116,8 @@ def _guard_rules(mod, ctx):
             def wrapped(*a, **k):
                 try:
                     return fn(*a, **k)
-                except (extract.AnalysisError, KeyboardInterrupt):
-                    raise
+                except (extract.AnalysisError, KeyboardInterrupt, NameError, ImportError, SyntaxError, RecursionError, MemoryError):
+                    raise       # infrastructure / programming errors of the machinery itself: ANALYSIS-ERROR, exit 2
                 except Exception as e:  # noqa: BLE001
                     tb = traceback.extract_tb(e.__traceback__)
                     last = [f for f in tb if "/rules/" in f.filename] or list(tb)
